@@ -14,6 +14,13 @@ def verdict(run, rule, fn, construct, r, m):
                        "method(s) %s that the reference of %s is written "
                        "against (renamed or removed); no verdict"
                        % (rule, fn.module.name, r["vanished"], fn.qualname))
+    elif r["verdict"] == "violation" and _opaque(r["witness"].get("live")):
+        # iteration or a condition happens inside a construct the interpreter
+        # did not unfold (a generator handed to itertools / filter / next, a
+        # lambda): the terms differ, the behaviour need not -- no verdict
+        run.soft_error("%s: %s computes its outcome through a construct "
+                       "outside the interpreter's vocabulary (%s); no verdict"
+                       % (rule, fn.qualname, _opaque(r["witness"].get("live"))))
     elif r["verdict"] == "violation":
         run.fail(rule, fn.qualname, construct,
                  "outcome differs from the reference: live %s, reference %s"
@@ -22,6 +29,14 @@ def verdict(run, rule, fn, construct, r, m):
     else:
         run.soft_error("%s: %s consults a predicate outside the reference "
                        "vocabulary: %s" % (rule, fn.qualname, r["atoms"]))
+
+
+def _opaque(shown):
+    txt = str(shown)
+    for marker in ("<comprehension>", "<lambda@"):
+        if marker in txt:
+            return marker
+    return None
 
 
 def crosscheck(ctx, rule, live_q, ref_file, ref_name, cls=None, what="",
